@@ -6,10 +6,10 @@
 (*   an output labelled change is real change; inconsistent PSBTs are rejected; the honest PSBT    *)
 (*   is summarised; fee = inputs - outputs and spend + change + fee = inputs (big-number sums).    *)
 EXTENDS BN, CaseIO, FiniteSets
-\* o: [spk: [m, keys (seq of <<c, tag>>)], named: seq of [key, xfp, path]]
+\* o: [spk: [m, keys (seq of <<c, tag>>), shape ("plain" = exactly OP_m keys OP_n OP_CHECKMULTISIG)], named: seq of [key, xfp, path]]
 KeySet(s) == {s.keys[k] : k \in 1..Len(s.keys)}
 RealChange(o, n, m) ==
-  /\ o.spk.m = m /\ Cardinality(KeySet(o.spk)) = n /\ Len(o.spk.keys) = n
+  /\ o.spk.shape = "plain" /\ o.spk.m = m /\ Cardinality(KeySet(o.spk)) = n /\ Len(o.spk.keys) = n
   /\ \A c \in 1..n : Cardinality({k \in KeySet(o.spk) : k[1] = c}) = 1
   /\ \A j \in 1..Len(o.named) : o.named[j].key = <<o.named[j].xfp, o.named[j].path>> /\ o.named[j].key \in KeySet(o.spk)
 RECURSIVE SumBN(_, _, _)
